@@ -119,8 +119,9 @@ static void brkt(const char *sub, const char *content) {
     t[0] = '['; memcpy(t + 1, content, l); t[l + 1] = ']';
     check_dpart(sub, t, l + 2);
 }
-static const char *const OCT[] = { "0", "1", "9", "10", "99", "100", "199", "200", "249", "250", "255", "256", "300", "00", "01", "001", "0001", "" };
-#define NOCT 18
+static const char *const OCT[] = { "0", "1", "9", "10", "99", "100", "199", "200", "249", "250", "255", "256", "300", "00", "01", "001", "0001", "",
+    "4294967297", "4294967296", "4294967551", "18446744073709551617", "65537", "99999999999999999999", "00000000000000000001" };
+#define NOCT 25
 static void v4_shard(long shard, void *arg) {
     (void)arg; char c[128];
     if (shard < NOCT) {       /* all 4-tuples with first spelling = shard */
